@@ -73,6 +73,43 @@ claim("C15", "type-level CAS check + who-may-call + typestate path automaton",
       "persistent timer registration. Response<->request matching over server behaviours is not decided.",
       TRUST, "DESIGN.md §3 C15")
 
+claim("C01", "path automata over clang CFG + idempotence classification of reachable writes",
+      "Integrity of the segmentation mechanisms on every path: revert-guard discipline of each step, idempotent re-parse (only assignments "
+      "and keyed inserts on message state), incremental body counters, no message write / Next after possible input exhaustion, errors "
+      "independent of the cut, re-base after buffer growth. Equality of the parsed message over all cuts is value-level and not decided.",
+      TRUST, "DESIGN.md §3 C01")
+claim("C03", "bounded-buffer taint + dominance + region checks over clang CFG",
+      "No NUL-scanning libc/std entry point on the bounded receive buffer, bounded look-ahead, limit check before growth, no reservation "
+      "sized by the peer, catch-all with std::exception, scan loops test for end of input, no unchecked signed->unsigned counts. "
+      "Termination time and arithmetic UB inside conversions are not decided.",
+      TRUST, "DESIGN.md §3 C03")
+claim("C05", "ordering/dominance + dataflow identity + sibling agreement over clang CFG",
+      "Component order and failure discipline of the fixed-length serialisers, Content-Length operand == body operand, chunk framing shape "
+      "incl. numeric base restored, sibling agreement putOnWire/serveFile, growth cap. Byte-exact grammar for all sizes is not decided.",
+      TRUST, "DESIGN.md §3 C05")
+claim("C14", "guard-dominates-sink + option propagation (sibling agreement) + hierarchy exhaustiveness",
+      "Cumulative limit check (on bytes.size()) dominates growth, 413 path, options reach every worker's transport and handler, idle scan "
+      "covers every parser phase and both time-outs from the request start, periodic timer drives it. Exactness at limit±1 and "
+      "wall-clock bounds are not decided.",
+      TRUST, "DESIGN.md §3 C14")
+claim("C16", "type-level container discipline + writer/reader table agreement + hierarchy exhaustiveness",
+      "Case-insensitive containers/comparators, keep-first insertion and intact raw value, token tables of Connection/Encoding/"
+      "Cache-Control/Expect agree, every named header type is registered, quality value rounded. Round trip over all representable "
+      "values is not decided.",
+      TRUST, "DESIGN.md §3 C16")
+claim("C17", "writer/reader table agreement + bounded-buffer taint + keyed-insert check",
+      "Cookie attribute names and their members agree between write and fromRaw, bounded reads, keyed keep-first jar insertion and jar "
+      "clearing before re-parse. Equality of parsed cookies, iteration and rejection of all malformed text are not decided.",
+      TRUST, "DESIGN.md §3 C17")
+claim("C18", "bounded-buffer taint + table agreement + failure-arm check + folding/rounding shape",
+      "No read past the given length in the media-type parser and its matchers, matched literals == printed literals, every syntactic "
+      "failure raises 415, tolower folding, rounded quality. Parameter/quality round trip is not decided.",
+      TRUST, "DESIGN.md §3 C18")
+claim("C19", "range-check-dominates-narrowing + path facts + who-may-call",
+      "Port narrowing only past a bail-out testing end pointer, min and max; empty port rejected; default port constant; only ':port' after a "
+      "bracketed literal; conversions only via inet_pton/inet_ntop with rejection. Correctness for every literal form is not decided.",
+      TRUST, "DESIGN.md §3 C19")
+
 for pid in ["C01", "C03", "C04", "C05", "C06", "C08", "C09", "C10", "C11", "C12", "C13", "C14", "C15", "C16", "C17", "C18", "C19"]:
     if pid not in CLAIMS:
         na(pid, "static rule set designed in DESIGN.md §3 but its check is not wired in yet (under construction in this session)")
